@@ -639,6 +639,95 @@ def eviction_history(pool, offset, n_sources=130):
     return ops + ops[:25] + ops[:5]
 
 
+def twin_histories():
+    """Inputs that share their operand TEXTS but arrange them differently, formatted one after the other: any state
+    that is keyed by fragments of earlier inputs (symbol tables, name counters, memo dicts) shows as a result that
+    differs from the fresh-process result (seed C05-c: a mutable default shared by every call of the sympy bridge).
+    Deterministic; operands are not plain names, the expression is one the boolean rules do simplify."""
+    triples = [("x.a", "x.b", "x.c"), ("p[0]", "q[1]", "p[2]"), ("f(y)", "g(y)", "h(y)"), ("u > 3", "v.w", "t[0] == 1")]
+    templates = ["if ({A} and {B}) or ({A} and {B} and {C}):\n    print(1)\n",
+                 "def k(x, p, q, y, u, v, t):\n    return bool(({A} or {B}) and ({A} or {B} or {C}))\n"]
+    rules = ["symbolic_math.simplify_boolean_expressions_symmath", "symbolic_math.simplify_boolean_expressions"]
+    fillers = [("format", f"if (r.a{i} and r.b{i}) or (r.a{i} and r.b{i} and r.c{i}):\n    print({i})\n", "default")
+               for i in range(12)]
+    out = []
+    for (a, b, c) in triples:
+        for t in templates:
+            one = t.replace("{A}", a).replace("{B}", b).replace("{C}", c)
+            two = t.replace("{A}", b).replace("{B}", a).replace("{C}", c)
+            for mk in ([lambda s: ("format", s, "default")] + [lambda s, q=q: ("rule", q, s, (), {}) for q in rules]):
+                out.append([mk(one), mk(two)])
+                out.append([mk(two), mk(one), mk(two)])
+            out.append(fillers + [("format", one, "default")])        # > 10 earlier operand texts (var_10 sorts before var_2)
+    return out
+
+
+def sentinel_eviction_histories(pool, real_cap=100):
+    """The same text formatted twice in one interpreter with more than `maxsize` other parses in between (real
+    lru_cache on core.parse, so the first tree is evicted while other caches still hold objects derived from it), vs a
+    fresh interpreter.  Sentinels: every harvested example that contains a star import or goes through import tracing,
+    plus whole-pipeline calls on star-import modules."""
+    sentinels = []
+    for r in pool:
+        if ("import *" in r[1] or r[0].startswith("tracing.")) and _op_ok(r):
+            sentinels.append(rec_op(r))
+    sentinels = sentinels[:40]
+    star = ["from os.path import *\n\nprint(join(\"a\", \"b\"), dirname(\"c\"))\n",
+            "from math import *\nfrom os import *\n\nprint(sqrt(2), getcwd(), pi)\n"]
+    sentinels += [("format", s, "default") for s in star]
+    sentinels += [("rule", "tracing.fix_starred_imports", s, (), {}) for s in star]
+    seen, fillers = {op[2] if op[0] != "format" else op[1] for op in sentinels}, []
+    for r in pool:
+        if r[1] not in seen and _op_ok(r) and "import *" not in r[1]:
+            seen.add(r[1])
+            fillers.append(rec_op(r))
+        if len(fillers) >= real_cap + 25:
+            break
+    return [sentinels + fillers + sentinels]
+
+
+def _op_ok(r) -> bool:
+    try:
+        op_key(rec_op(r))
+        return True
+    except TypeError:
+        return False
+
+
+def run_histories_vs_fresh(farm, histories, mode="record", check="window", baseline=None, timeout=400):
+    """Every call of every history must return what the same call returns in a fresh fork, and leave the caches
+    faithful.  Returns (failures as (kind, ops, detail), number of calls)."""
+    baseline = {} if baseline is None else baseline
+    need = {}
+    for h in histories:
+        for op in h:
+            k = op_key(op)
+            if k not in baseline and k not in need:
+                need[k] = op
+    failures = []
+    bres = farm.map([{"kind": "history", "ops": [op]} for op in need.values()])
+    for (k, op), (st, *rest) in zip(need.items(), bres):
+        baseline[k] = rest[0]["results"][0] if st == "ok" else ("job-error", rest[0])
+    hres = farm.map([{"kind": "history", "ops": h, "mode": mode, "check": check, "timeout": timeout} for h in histories])
+    n_calls = 0
+    for h, (st, *rest) in zip(histories, hres):
+        if st != "ok":
+            failures.append(("job-error", h[:3], {"error": rest[0]}))
+            continue
+        res = rest[0]
+        n_calls += len(h)
+        if res["problems"]:
+            failures.append(("cache-unfaithful", h, {"problems": res["problems"][:4], "mode": mode}))
+            continue
+        for i, (op, got) in enumerate(zip(h, res["results"])):
+            want = baseline[op_key(op)]
+            if got != want:
+                failures.append(("result-depends-on-history", h,
+                                 {"call": i, "after_history": got, "fresh_process": want, "mode": mode}))
+                break
+    return failures, n_calls
+
+
 def failure_site(kind, ops, detail) -> str:
     """kind + the call that broke the property (the call after which a cache entry first differs / whose
     result differs) + the cache function concerned."""
@@ -842,6 +931,17 @@ def _check(run, wd, mods, core, farm, t_start):
                                  {"call": i, "after_history": got, "fresh_process": want, "mode": "through"}))
                 break
     timing["eviction_s"] = round(time.time() - t0, 1)
+
+    # 2d. twins (same operand texts, other arrangement) and sentinel / >maxsize other parses / sentinel again
+    t0 = time.time()
+    tw = twin_histories()
+    f1, n1 = run_histories_vs_fresh(farm, tw, "record", "window", baseline)
+    sv = sentinel_eviction_histories(pool, real_cap)
+    f2, n2 = run_histories_vs_fresh(farm, sv, "through", "window", baseline)
+    failures += f1 + f2
+    n_calls += n1 + n2
+    hist["twin-histories"], hist["sentinel-eviction-histories"] = len(tw), len(sv)
+    timing["twins_sentinels_s"] = round(time.time() - t0, 1)
 
     # ---- verdicts
     site_hist = Counter(failure_site(k, o, d) for k, o, d in failures)
